@@ -35,7 +35,12 @@ RULE = ("streams: msg (OSC messages with every value tag ifsbhtdScrmTFNI, 0..12 
         "message.")
 TRUSTED = ["the C03 translator: g++ 12.2 -O2 -g -DNDEBUG -fcallgraph-info (.ci files), tools/callgraph.py, its "
            "indirect-call table (rules FN and VIRT), the C1->C2 constructor alias rule and the excluded abort-only edges "
-           "(__throw_bad_function_call, __stack_chk_fail, __assert_fail, abort)",
+           "(__throw_bad_function_call, __stack_chk_fail, __assert_fail, abort).  Reduced on every run by three cross-checks "
+           "against the object code (objdump): every call / tail-jump instruction of every function reachable from an RT "
+           "entry is an edge of the graph and no function has more indirect call instructions than the graph has "
+           "indirect edges for it; every entry of the compiled vtables of rtosc::RtData and c03::CaptureData is a target of "
+           "rule VIRT; the analysed objects are instruction-identical to the objects the dynamic harness links.  And by a "
+           "source check: every callback macro of port-sugar.h is expanded in h_C03_sugar.cpp",
            "harness/h_C03.cpp: malloc/calloc/realloc/free/memalign/aligned_alloc/posix_memalign, operator new/delete "
            "(all forms) and pthread_mutex_lock/trylock are defined in the executable and counted while a thread-local "
            "flag is set; harness/h_C03_sugar.cpp instantiates every port-sugar callback macro once (the same source is "
@@ -376,7 +381,7 @@ def gen_link(rng, dist):
     return "link g=7 %d %d %s %s" % (maxmsg, nmsg, ",".join(ops), ",".join(res) or "-")
 
 def gen(rng, tier, dist):
-    scale = 1 if tier == "quick" else 25
+    scale = 1 if tier == "quick" else 100
     out = ["cbs g=5"]
     for _ in range(700 * scale):  out.append(gen_static(rng, dist))
     for _ in range(900 * scale):  out.append(gen_generated(rng, dist))
